@@ -194,6 +194,8 @@ def run(ck):
                 if "F3" in tc:
                     r2["isolate"] = True
                 reqs.append(r2); meta.append(("near:" + k, tc | {c for c in classes_of(p) if c != "F13"}, None))
+    for msrc in [gen_match_source(ck.rng.fork(("match-C03", i))) for i in range(150 if quick else 1500)]:
+        reqs.append({"src": msrc, "n": 8, "state": True}); meta.append(("match", set(), None))
     frng = Rng(20260925)
     files = sorted(glob.glob(REPO + "/examples/*.mmm") + glob.glob(REPO + "/lib/*.mmm") + glob.glob(REPO + "/crates/lib/mimium-test/tests/mmm/*.mmm"))
     for f in files:
@@ -263,7 +265,7 @@ def run(ck):
                 if nouts is not None and b.get('io') and b['io'][1] != nouts:
                     viol.append(("%s declares %d outputs for a dsp returning %d values" % (be, b['io'][1], nouts), src, rq))
                 # VM: every state access hits a cell of the published layout (hence lies inside the storage sized from it)
-                if be == "vm" and b.get('skel') and kind in ("gen",):
+                if be == "vm" and b.get('skel') and kind in ("gen", "match"):
                     for t, s in enumerate(b['samples']):
                         off = events_hit_cells(b['skel'], s.get('trace', []))
                         if off:
